@@ -1077,12 +1077,14 @@ func (p *pp) argNumber(
 }
 
 func (p *pp) badArgNum(verb rune) {
+	p.rejectWrap(verb)
 	p.buf.writeString(percentBangString)
 	p.buf.writeRune(verb)
 	p.buf.writeString(badIndexString)
 }
 
 func (p *pp) missingArg(verb rune) {
+	p.rejectWrap(verb)
 	p.buf.writeString(percentBangString)
 	p.buf.writeRune(verb)
 	p.buf.writeString(missingString)
@@ -1141,7 +1143,7 @@ formatLoop:
 						p.fmt.plusV = p.fmt.plus
 						p.fmt.plus = false
 					}
-					p.printArg(a[argNum], rune(c))
+					p.printVerbArg(a[argNum], rune(c))
 					argNum++
 					i++
 					continue formatLoop
@@ -1237,7 +1239,7 @@ formatLoop:
 			p.fmt.plus = false
 			fallthrough
 		default:
-			p.printArg(a[argNum], verb)
+			p.printVerbArg(a[argNum], verb)
 			argNum++
 		}
 	}
